@@ -262,7 +262,7 @@ impl<AS: GuestAddressSpace> VhostVdpa for VhostKernVdpa<AS> {
 
         // SAFETY: This ioctl is called on a valid vhost-vdpa fd and has its
         // return value checked.
-        let ret = unsafe { ioctl_with_ref(self, VHOST_VDPA_GET_VRING_GROUP(), &vring_state) };
+        let ret = unsafe { ioctl_with_ref(self, VHOST_VDPA_SET_GROUP_ASID(), &vring_state) };
         ioctl_result(ret, ())
     }
 
